@@ -167,36 +167,38 @@ def _predicates(db, chk, m, preds, DF):
     chk.ob(rule, "IterationIndexFilter: rows whose iteration is the i-th of the SORTED distinct iterations present (position test against the given indices)", ok if got else None, where,
            found=detail, accepted="iteration in [it for i, it in enumerate(sorted(unique(iteration)) minus -1) if i in indices]",
            why="without the sort the position depends on the order in which iterations first appear in the frame")
-    # the -1 handling (AST rule): -1 is removed only when it is the FIRST element of the sorted list
+    # the -1 handling, decided by abstract runs: the distinct iterations of the frame are given (hooked `unique()`), the selected iterations are read off the result
+    def selected(uniq, idxs):
+        def hook(I, name, pos, kw, node):
+            if name.endswith(".unique"):
+                return list(uniq)
+            return NotImplemented
+        I = Interp(db, call_hook=hook, decide=assume(("hascol", DF, "iteration")))
+        call = I.find_method((m, "IterationIndexFilter"), "__call__")
+        try:
+            runs = [r for r in I.explore(f"{call.mod.name}:{call.qualname}", lambda I: {"self": Obj("self", cls=(m, "IterationIndexFilter"), attrs={"iteration_index": list(idxs)}), "df": Frame(DF), "symbol_table": None})
+                    if r.raised is None]
+        except AnalysisError:
+            return None
+        if len(runs) != 1 or not isinstance(runs[0].ret, Frame) or runs[0].ret.base != DF:
+            return None
+        rows = runs[0].ret.rows
+        if rows == T.TRUE:
+            return "all rows"
+        it = T.col(DF, "iteration")
+        for v in range(-1, 9):
+            pass
+        try:
+            return sorted(v for v in range(-1, 9) if bool(T.evaluate(rows, lambda leaf, v=v: v if leaf == it else (_ for _ in ()).throw(T.Unknown(leaf)))))
+        except T.Unknown:
+            return None
+    cases = ((([-1, 3, 5, 7], [0, 2]), [3, 7]), (([5, 0, 2], [0]), [0]), (([-1], [0]), "all rows"), (([7, -1, 3], [1]), [7]), (([-1, 0, 4], [0, 1]), [0, 4]))
+    got = [selected(*a) for a, _ in cases]
+    wrong = [{"distinct iterations": a[0], "positions": a[1], "selected": g, "expected": w} for (a, w), g in zip(cases, got) if g is not None and g != w]
     f = m.func("IterationIndexFilter.__call__")
-    pops = [n for n in ast.walk(f) if isinstance(n, ast.Call) and isinstance(n.func, ast.Attribute) and n.func.attr in ("pop", "remove")]
-    srt = [n for n in ast.walk(f) if isinstance(n, ast.Call) and H.name_id(n.func) == "sorted"]
-    good, wrong = [], []
-    for n in ast.walk(f):
-        if isinstance(n, ast.If) and H.match("$l[0] == -1", n.test) is not None:
-            body_txt = " ".join(ast.unparse(x) for x in n.body)
-            if any(k in body_txt for k in (".pop(0)", ".remove(-1)", "[1:]")) or any(isinstance(x, ast.Delete) for x in n.body):
-                good.append("if <list>[0] == -1: drop the head")
-        if isinstance(n, ast.IfExp):
-            t_, b_, o_ = n.test, n.body, n.orelse
-            if H.match("$l[0] == -1", t_) is not None and H.match("$l[1:]", b_) is not None and isinstance(o_, ast.Name):
-                good.append("<list>[1:] if <list>[0] == -1 else <list>")
-            if H.match("$l[0] != -1", t_) is not None and H.match("$l[1:]", o_) is not None and isinstance(b_, ast.Name):
-                good.append("<list> if <list>[0] != -1 else <list>[1:]")
-        if isinstance(n, ast.comprehension):
-            for c_ in n.ifs:
-                if any(H.match(p_, c_) is not None for p_ in ("$x != -1", "$x >= 0", "$x > -1")):
-                    good.append("filter " + ast.unparse(c_))
-                elif any(H.match(p_, c_) is not None for p_ in ("$x > 0", "$x >= 1", "$x")) and "iteration_index" not in ast.unparse(c_):
-                    wrong.append("filter " + ast.unparse(c_) + " also drops iteration 0")
-    for pp in pops:
-        guard = m.parent.get(id(m.parent.get(id(pp))))
-        if not (isinstance(guard, ast.If) and H.match("$l[0] == -1", guard.test) is not None):
-            wrong.append("unguarded " + ast.unparse(pp))
-    okhead = len(srt) == 1 and "unique" in ast.unparse(srt[0]) and bool(good) and not wrong
-    chk.ob(rule, "IterationIndexFilter: the iteration list is sorted(unique(...)) and exactly a leading -1 is removed from it", True if okhead else (False if wrong or len(srt) != 1 else None),
-           m.loc(f), found=[ast.unparse(x) for x in srt] + good + wrong, accepted=["sorted(df['iteration'].unique())", "drop the head iff it is -1 (pop(0) / [1:] / != -1 filter)"],
-           why="dropping every non-positive value also removes iteration 0: positions shift by one")
+    chk.ob(rule, "IterationIndexFilter: positions count the SORTED distinct iterations without the -1 of 'outside every step' (iteration 0 keeps position 0; only -1 present: the frame itself)",
+           None if any(g is None for g in got) and not wrong else not wrong, m.loc(f), found=wrong or got, accepted=[w for _, w in cases],
+           why="dropping every non-positive value also removes iteration 0: positions shift by one; without the sort the position depends on the order of first appearance")
     # name filters
     sm = ("strmatch", "match", col("NAMECOL"), T.P("PATTERN"), ())
     gotn = _sel(preds, "NameStringColumnFilter", True)
